@@ -313,6 +313,9 @@ impl Spec for C07 {
 pub fn run(tier: Tier) -> i32 {
     let mut run = Run::new("C07", tier.clone());
     let spec = Arc::new(C07 { thorough: tier.is_thorough() });
+    if let Some(art) = crate::common::replay_artefact() {
+        return crate::common::finish_replay("C07", &art, &|ws| ws.iter().map(|w| confirm_stexp(&*spec, w)).collect());
+    }
     let depth = if tier.is_thorough() { 4 } else { 3 };
     let out = run_stexp(Arc::clone(&spec), depth, crate::common::ncpu(), 0, if tier.is_thorough() { 1500 } else { 45 });
     st_evidence(&mut run, &out, depth, "depth 1: every write of 68 views x 7 boundary values, 3 non-fitting values, every wrong-width accessor (write+read), RIP/EIP/XMM through every accessor; deeper: 13 colliding views of the RAX/RSP/R8 families x 3 values + 4 rejections; 3 initial register fills; all 68 views and RIP read back after every operation");
